@@ -342,6 +342,17 @@ func (c vfConnCtl) CutAfter(d vfDir, n int64, err error, onCut func()) {
 	h.mu.Unlock()
 }
 
+// CutNow ends direction d for its reader at exactly the number of bytes delivered so far (decided under the
+// direction's lock, so that nothing is delivered between the reading of the count and the cut) and returns that count.
+func (c vfConnCtl) CutNow(d vfDir, err error) int64 {
+	h := c.half(d)
+	h.mu.Lock()
+	defer h.mu.Unlock()
+	h.cutAt, h.cutErr, h.onCut = h.delivered, err, nil
+	h.cond.Broadcast()
+	return h.delivered
+}
+
 // FailWrite makes the k-th (1-based, counted from now) Write call in direction d fail.
 func (c vfConnCtl) FailWrite(d vfDir, k int, err error, onCut func()) {
 	h := c.half(d)
